@@ -57,7 +57,7 @@ def parse_summary(path):
     return d
 
 
-def shrink(ctx, exe, fail, budget=120):
+def shrink(ctx, exe, fail, budget=50):
     """Delta debugging on the op list: drop non-allocating operations while the same failure
     (property + signature) is still reported by a replay run."""
     ops = list(fail["ops"])
@@ -139,11 +139,13 @@ def run_property(ctx, pid):
 
     # property-level failures found on the implementation
     mine = [f for f in summ["fails"] if f["prop"] == low]
+    shrunk = 0
     for f in mine:
         is_known = any(k["signature"] == f["sig"] for k in ctx.known_open)
         ops = f["ops"]
-        if not is_known and not ctx.replay:
+        if not is_known and not ctx.replay and shrunk < 3:
             ops = shrink(ctx, exe, f)
+            shrunk += 1
         ctx.violation(f["sig"], "%s fails on the implementation: %s (after %d operations, last: %s)" % (pid, f["detail"], len(ops), ops[-1] if ops else "-"),
                       {"ops": ops, "detail": f["detail"], "how": "./check %s --replay <this file>" % pid})
     # model / implementation disagreement without a property-level failure
@@ -182,7 +184,7 @@ def run_property(ctx, pid):
             "extraction (ExtrOcamlBasic only, no Extract Constant/Inductive of our own) + OCaml 4.13.1 + props/C04/driver/c04_driver.ml",
             "Go harness props/C04/harness (generators, executor, classification of errors, snapshots, declarative preconditions), "
             "overlay hooks props/C04/overlay/verif_c04.go (read-only accessors), shared evaluators props/common/vinv",
-            "model coq/C04/{State,Ops,Step}.v is a hand-written restatement of the Go mutators; tied by the step-by-step comparison above; "
+            "model coq/C04/{State,Ops,Step,Refs}.v is a hand-written restatement of the Go mutators; tied by the step-by-step comparison above; "
             "NodeID/MessageID/CANID (uint32) and int modelled as unbounded Z (arguments stay in range); payload geometry abstracted by an oracle bit",
         ],
     })
